@@ -76,6 +76,10 @@ type PageGen struct {
 	// RelURLs: use relative URL forms (C06)
 	RelURLs bool
 	Kinds   []string // block kinds emitted, in order (for histograms)
+	// MarkMode: how "unlikely"-marked subtrees are emitted: 0 as marked, 1 deleted, 2 markers renamed to neutral values
+	MarkMode int
+	// SafeMarkers: only marker words without a second documented meaning; marked wrappers hold only block content
+	SafeMarkers bool
 }
 
 func defaultWeights() []W {
@@ -366,7 +370,23 @@ func (g *PageGen) table(data bool) string {
 
 func (g *PageGen) hidden() string {
 	inner := g.words(g.R.Range(1, 8))
-	switch g.R.Intn(7) {
+	switch g.R.Intn(15) {
+	case 12:
+		return `<div style="display:none !important">` + inner + `</div>`
+	case 13:
+		return `<span style="display: none!important;color:red">` + inner + `</span>`
+	case 14:
+		return `<div style="display :none">` + inner + `</div>`
+	case 7:
+		return `<span style="color:#c00;visibility:hidden">` + inner + `</span>`
+	case 8:
+		return `<div style="height:0;visibility:collapse">` + inner + `</div>`
+	case 9:
+		return `<div style="DISPLAY:NONE">` + inner + `</div>`
+	case 10:
+		return `<div style="margin:0;display:none">` + inner + `</div>`
+	case 11:
+		return `<p aria-hidden="true">` + inner + `</p>`
 	case 0:
 		return `<div hidden>` + inner + `</div>`
 	case 1:
@@ -416,7 +436,11 @@ func (g *PageGen) form() string {
 
 func (g *PageGen) links() string {
 	var sb strings.Builder
-	sb.WriteString(g.R.Pick("<div>", "<nav>", `<div class="menu">`, "<ul>"))
+	open := g.R.Pick("<div>", "<nav>", `<div class="menu">`, "<ul>")
+	if g.SafeMarkers && open == `<div class="menu">` {
+		open = "<div>" // every marker on the page must come from unlikely(), so that it can be deleted / renamed
+	}
+	sb.WriteString(open)
 	ul := strings.HasPrefix(sb.String(), "<ul")
 	n := g.R.Range(3, 8)
 	for i := 0; i < n; i++ {
@@ -439,16 +463,39 @@ func (g *PageGen) links() string {
 
 var unlikelyWords = []string{"sidebar", "footer", "menu", "banner", "related", "sponsor", "popup", "social", "pagination", "breadcrumbs", "disqus", "rss", "shoutbox", "skyscraper", "supplemental", "ad-break", "agegate", "extra", "legends", "gdpr", "combx", "community", "remark", "replies", "yom-remote", "cover-wrap", "ai2html", "pager", "header"}
 
+var safeMarkerWords = []string{"sidebar", "footer", "menu", "banner", "related", "sponsor", "popup", "breadcrumbs", "disqus", "rss", "shoutbox", "skyscraper", "supplemental", "ad-break", "agegate", "extra", "legends", "gdpr", "combx", "remark", "replies", "yom-remote", "cover-wrap", "ai2html"}
+
 func (g *PageGen) unlikely(depth int) string {
-	w := unlikelyWords[g.R.Intn(len(unlikelyWords))]
-	attr := `class="` + w + `"`
-	switch g.R.Intn(4) {
-	case 0:
-		attr = `id="` + w + `"`
-	case 1:
-		attr = `role="` + g.R.Pick("menu", "menubar", "complementary", "navigation", "alert", "alertdialog", "dialog") + `"`
+	words := unlikelyWords
+	if g.SafeMarkers {
+		words = safeMarkerWords
 	}
-	return `<div ` + attr + `>` + g.blocks(g.R.Range(1, 3), depth+1) + `</div>` + "\n"
+	w := words[g.R.Intn(len(words))]
+	how := g.R.Intn(4)
+	role := g.R.Pick("menu", "menubar", "complementary", "navigation", "alert", "alertdialog", "dialog")
+	tag := "div"
+	if g.SafeMarkers {
+		tag = g.R.Pick("div", "div", "section", "aside", "ul")
+	}
+	inner := g.blocks(g.R.Range(1, 3), depth+1)
+	if tag == "ul" {
+		inner = "<li>" + inner + "</li>"
+	}
+	attr := `class="` + w + `"`
+	neutral := `class="zzneutral"`
+	switch how {
+	case 0:
+		attr, neutral = `id="`+w+`"`, `id="zzneutral"`
+	case 1:
+		attr, neutral = `role="`+role+`"`, `role="note"`
+	}
+	switch g.MarkMode {
+	case 1:
+		return ""
+	case 2:
+		return "<" + tag + " " + neutral + ">" + inner + "</" + tag + ">\n"
+	}
+	return "<" + tag + " " + attr + ">" + inner + "</" + tag + ">\n"
 }
 
 func (g *PageGen) block(depth int) string {
@@ -499,7 +546,8 @@ func (g *PageGen) block(depth int) string {
 		return `<div class="sharing">` + g.words(3) + `</div>` + "\n"
 	case "divwrap":
 		if depth < 3 {
-			return "<" + g.R.Pick("div", "section", "article", "div") + g.deco() + ">" + g.blocks(g.R.Range(1, 4), depth+1) + "</div>\n"
+			t := g.R.Pick("div", "section", "article", "div")
+			return "<" + t + g.deco() + ">" + g.blocks(g.R.Range(1, 4), depth+1) + "</" + t + ">\n"
 		}
 		return g.para()
 	case "baretext":
